@@ -156,7 +156,7 @@ def rd_obl(n, start, tier, timeout=900, fixlen=None, calls=None):
                    "" if calls is None else "; first %d read calls" % calls))
 
 
-D_QUICK = [(0, 0), (7, 0), (10, 0), (14, 0), (10, BLK - 3), (12, BLK - 9)]
+D_QUICK = [(0, 0), (7, 0), (10, 0), (10, BLK - 3), (12, BLK - 9)]
 for n, st in D_QUICK:
     OBLIGATIONS.append(rd_obl(n, st, "quick"))
 for n in range(0, 25):
